@@ -60,7 +60,7 @@ SStep == \/ SCreateBlob \/ SRewrite \/ SAppend \/ SConsumeFile \/ SConsumeFail \
          \/ STpcBegin \/ SStoreOK \/ SStoreFail \/ SUStoreOK \/ SUStoreFail \/ SVote \/ SFinish \/ SConnAbort
          \/ STpcAbort \/ SOtherCommit \/ SUBegin \/ SPack
 \* (the enabling condition of Pack is written out: ENABLED would evaluate the packer a second time)
-PackEnabled(T) == Idle /\ IsClean(con) /\ T \in 1..clk
+PackEnabled(T) == HasPack /\ Idle /\ IsClean(con) /\ T \in 1..clk
 SSkip == /\ More
          /\ IF E.a = "Pack" THEN ~PackEnabled(KTid(E.T)) ELSE ~ENABLED SStep
          /\ Adv([a |-> "Skip"]) /\ UNCHANGED vars
